@@ -121,8 +121,6 @@ def main(argv=None):
     # the thorough tier always contains the quick one.  A job that was started is never cut short by this budget.
     tier_budget = float(os.environ.get("VERIF_TIER_BUDGET", "600" if tier == "thorough" else "0") or 0)
     deadline = (t0 + tier_budget) if tier_budget > 0 else None
-    if tier == "thorough" and "VERIF_JOB_BUDGET" not in os.environ:
-        os.environ["VERIF_JOB_BUDGET"] = "600"
     specs = [(prop.lower(), fn, kw, tier, seed, deadline) for fn, kw in jobs]
     # heavier jobs first
     order = list(range(len(specs)))
